@@ -52,7 +52,7 @@ func ruleAllocTableWriters(c *Ctx, rule string) {
 			case *ssa.MapUpdate:
 				if _, f, ok := fieldLoad(x.Map); ok && f == fld {
 					c.Anchor(rule, "insert")
-					if fn == create {
+					if w.bodyRoot(fn) == create {
 						c.OK(rule, fname(fn), "insert", w.instrPos(in), "the one inserter")
 					} else {
 						c.Bad(rule, fname(fn), "insert", w.instrPos(in), "an allocation is inserted outside CreateAllocation: no relay goroutine, timer or created-event is guaranteed for it")
@@ -62,7 +62,7 @@ func ruleAllocTableWriters(c *Ctx, rule string) {
 				if b, ok := x.Call.Value.(*ssa.Builtin); ok && b.Name() == "delete" {
 					if _, f, ok := fieldLoad(x.Call.Args[0]); ok && f == fld {
 						c.Anchor(rule, "delete")
-						if fn == del {
+						if w.bodyRoot(fn) == del {
 							c.OK(rule, fname(fn), "delete", w.instrPos(in), "the one remover (closes what it removes, C06.5)")
 						} else {
 							c.Bad(rule, fname(fn), "delete", w.instrPos(in), "an allocation is removed from the table outside DeleteAllocation: its resources are not released")
@@ -86,7 +86,7 @@ func ruleAllocTableWriters(c *Ctx, rule string) {
 	for _, gg := range []g{{"packetConnHandler", "relayPacketConn"}, {"connHandler", "relayListener"}} {
 		h := w.Func("allocation", "Allocation", gg.handler)
 		n := 0
-		w.eachInstr(create, func(in ssa.Instruction) {
+		w.eachInstrDeep(create, func(in ssa.Instruction) {
 			goi, ok := in.(*ssa.Go)
 			if !ok || goi.Call.StaticCallee() != h {
 				return
@@ -151,23 +151,70 @@ func (w *World) rangeLoops(fn *ssa.Function, pred func(coll ssa.Value) bool) []l
 			if !pred(x.X) {
 				return
 			}
-			// index is phi+1 of a rangeindex phi
-			bo, ok := x.Index.(*ssa.BinOp)
-			if !ok {
+			// A complete index loop over the collection, in any of its spellings
+			// (`for _, e := range s`, `for i := range s`, `for i := 0; i < len(s); i++`):
+			// the index I used here is a counter p (first value 0, step 1) or p+1 (first
+			// value -1, step 1) of a loop header whose condition is  I < len(s).
+			idx := x.Index
+			var phi *ssa.Phi
+			first := int64(0)
+			if bo, ok := idx.(*ssa.BinOp); ok && bo.Op == token.ADD {
+				if k, isK := constInt(bo.Y); isK && k == 1 {
+					phi, _ = bo.X.(*ssa.Phi)
+					first = -1
+				}
+			} else {
+				phi, _ = idx.(*ssa.Phi)
+			}
+			if phi == nil || len(phi.Edges) != 2 {
 				return
 			}
-			phi, ok := bo.X.(*ssa.Phi)
-			if !ok || phi.Comment != "rangeindex" {
+			okInit, okStep := false, false
+			for _, e := range phi.Edges {
+				if k, isK := constInt(e); isK && k == first {
+					okInit = true
+				}
+				if bo, ok := e.(*ssa.BinOp); ok && bo.Op == token.ADD && bo.X == ssa.Value(phi) {
+					if k, isK := constInt(bo.Y); isK && k == 1 {
+						okStep = true
+					}
+				}
+			}
+			if !okInit || !okStep {
 				return
 			}
 			h := phi.Block()
-			if _, ok := h.Instrs[len(h.Instrs)-1].(*ssa.If); !ok {
+			iff, ok := h.Instrs[len(h.Instrs)-1].(*ssa.If)
+			if !ok {
 				return
 			}
-			ia := x
-			out = append(out, loopInfo{header: h, body: h.Succs[0], desc: "range over slice", isElem: func(v ssa.Value) bool {
+			okCond := false
+			for _, f := range normCond(iff.Cond, true) {
+				if f.Op != "<" || !f.Truth || !w.sameKey(f.X, idx) {
+					continue
+				}
+				if lc, _ := callOf(w.resolveLoad(f.Y)); lc != nil {
+					if b, isB := lc.Call.Value.(*ssa.Builtin); isB && b.Name() == "len" && w.sameKey(lc.Call.Args[0], x.X) {
+						okCond = true
+					}
+				}
+			}
+			if !okCond {
+				return
+			}
+			for _, o := range out {
+				if o.header == h {
+					return // one loop, several element accesses
+				}
+			}
+			coll := x.X
+			out = append(out, loopInfo{header: h, body: h.Succs[0], desc: "index loop over the whole slice", isElem: func(v ssa.Value) bool {
 				u, ok := stripIface(v).(*ssa.UnOp)
-				return ok && u.Op == token.MUL && u.X == ssa.Value(ia)
+				if !ok || u.Op != token.MUL {
+					return false
+				}
+				ia, ok := u.X.(*ssa.IndexAddr)
+				return ok && w.sameKey(ia.X, coll) && w.sameKey(ia.Index, idx)
 			}})
 		}
 	})
@@ -582,14 +629,14 @@ func ruleErrorPathRelease(c *Ctx, rule string) {
 	sites := []site{
 		{w.Func("allocation", "Manager", "CreateTCPConnection"), "allocateConn", func(call *ssa.Call) bool {
 			_, f, ok := fieldLoad(call.Call.Value)
-			return ok && f.Name() == "allocateConn"
+			return ok && nm(f) == "allocateConn"
 		}, 0, 1},
 		{w.Func("allocation", "Allocation", "connHandler"), "Accept", func(call *ssa.Call) bool {
 			return call.Call.IsInvoke() && call.Call.Method.Name() == "Accept"
 		}, 0, 1},
 		{w.Func("allocation", "Manager", "GetRandomEvenPort"), "allocatePacketConn", func(call *ssa.Call) bool {
 			_, f, ok := fieldLoad(call.Call.Value)
-			return ok && f.Name() == "allocatePacketConn"
+			return ok && nm(f) == "allocatePacketConn"
 		}, 0, 2},
 	}
 	for _, s := range sites {
@@ -860,7 +907,7 @@ func ruleRelayLoopExits(c *Ctx, rule string) {
 					return false
 				}
 				b, f, isL := fieldLoad(call.Call.Args[1])
-				return isL && f.Name() == "fiveTuple" && w.sameKey(b, fn.Params[0])
+				return isL && nm(f) == "fiveTuple" && w.sameKey(b, fn.Params[0])
 			})
 			if ok {
 				c.OK(rule, fname(fn), "exit on error", w.instrPos(r), "manager.DeleteAllocation(a.fiveTuple) before the return")
@@ -1036,10 +1083,40 @@ func tableWrite(w *World, in ssa.Instruction, tbl *types.Var) bool {
 
 // derivesFromTable: v is (an extract of) a lookup / index of the table field's value.
 func derivesFromTable(w *World, v ssa.Value, tbl *types.Var) bool {
+	return derivesFromTableD(w, v, tbl, 0)
+}
+
+func derivesFromTableD(w *World, v ssa.Value, tbl *types.Var, depth int) bool {
 	for i := 0; i < 8; i++ {
 		v = stripIface(w.resolveLoad(v))
 		switch x := v.(type) {
+		case *ssa.Call:
+			// a lookup helper: every non-nil value it returns is read from the table
+			h := x.Call.StaticCallee()
+			if h == nil || !w.IsMod[h] || len(h.Blocks) == 0 || depth > 2 {
+				return false
+			}
+			n := 0
+			for _, r := range returnsOf(h) {
+				if len(r.Results) == 0 {
+					return false
+				}
+				for _, lf := range w.guardedLeaves(r.Results[0], r) {
+					if isNilConst(lf.val) {
+						continue
+					}
+					if !derivesFromTableD(w, lf.val, tbl, depth+1) {
+						return false
+					}
+					n++
+				}
+			}
+			return n > 0
 		case *ssa.Extract:
+			if c, ok := x.Tuple.(*ssa.Call); ok && x.Index == 0 {
+				v = c
+				continue
+			}
 			v = x.Tuple
 		case *ssa.Lookup:
 			_, f, ok := fieldLoad(x.X)
@@ -1065,9 +1142,15 @@ func ruleArmThenPublish(c *Ctx, rule string) {
 	create := w.Func("allocation", "Manager", "CreateAllocation")
 	afterFunc := timeAfterFunc(w)
 	tbl := w.Field("allocation", "Manager", "allocations")
+	// the instruction of CreateAllocation that arms the timer: the AfterFunc call itself or
+	// the call of a helper that always does it
 	var arm ssa.Instruction
+	isArm := w.deepHit(func(in ssa.Instruction) bool {
+		call, ok := in.(*ssa.Call)
+		return ok && call.Call.StaticCallee() == afterFunc
+	})
 	w.eachInstr(create, func(in ssa.Instruction) {
-		if call, ok := in.(*ssa.Call); ok && call.Call.StaticCallee() == afterFunc {
+		if isArm(in) {
 			arm = in
 		}
 	})
@@ -1076,7 +1159,7 @@ func ruleArmThenPublish(c *Ctx, rule string) {
 		c.Bad(rule, fname(create), "arm", w.pos(create.Pos()), "CreateAllocation no longer arms a timer: anchor gone")
 		return
 	}
-	isInsert := func(in ssa.Instruction) bool { return tableWrite(w, in, tbl) }
+	isInsert := w.deepHit(func(in ssa.Instruction) bool { return tableWrite(w, in, tbl) })
 	bad := ""
 	for _, r := range returnsOf(create) {
 		if r.Block() != arm.Block() && !blockReaches(arm.Block(), r.Block()) {
@@ -1094,7 +1177,7 @@ func ruleArmThenPublish(c *Ctx, rule string) {
 	c.Anchor(rule, "insert→callback")
 	// handled by C15.6 (dominance of the insert over OnAllocationCreated); restated here as its own obligation
 	okDom := false
-	w.eachInstr(create, func(in ssa.Instruction) {
+	w.eachInstrDeep(create, func(in ssa.Instruction) {
 		call, ok := in.(*ssa.Call)
 		if !ok || call.Call.StaticCallee() != nil || call.Call.IsInvoke() {
 			return
@@ -1102,11 +1185,9 @@ func ruleArmThenPublish(c *Ctx, rule string) {
 		if _, f, isL := fieldLoad(call.Call.Value); !isL || f.Name() != "OnAllocationCreated" {
 			return
 		}
-		w.eachInstr(create, func(in2 ssa.Instruction) {
-			if isInsert(in2) && (in2.Block() == in.Block() && indexIn(in2) < indexIn(in) || in2.Block() != in.Block() && in2.Block().Dominates(in.Block())) {
-				okDom = true
-			}
-		})
+		if w.domHit(in, func(in2 ssa.Instruction) bool { return tableWrite(w, in2, tbl) }) {
+			okDom = true
+		}
 	})
 	if okDom {
 		c.OK(rule, fname(create), "insert→callback", w.pos(create.Pos()), "the insert dominates the created-callback")
